@@ -66,6 +66,7 @@ fn main() {
             let (s, l) = (args.num("segments", 30) as usize, args.num("len", 80) as usize);
             match args.str("prop", "C05").as_str() {
                 "C03" => sg::gen_c03(seed, s, l, &mut log),
+                "C17" => sg::gen_c17_map(seed, s, l, &mut log),
                 "C04" => sg::gen_c04(seed, s, l, &mut log),
                 _ => sg::gen_c05(seed, s, l, &mut log),
             }
